@@ -9,7 +9,8 @@ import (
 
 // Case generation for C10 and C11.
 
-var authHosts = []string{"reg0.example", "reg1.example:5000", "reg2.example"}
+// reg1.example:5000 and reg1.example:5001 are different registries on one host name
+var authHosts = []string{"reg0.example", "reg1.example:5000", "reg2.example", "reg1.example:5001"}
 
 // authRealmTable: every realm a generated challenge may name. All but the last
 // two are URLs that print back unchanged; "" is a missing realm, "://bad" is
@@ -614,6 +615,25 @@ func authDirected(o authGenOpts) []Case {
 		g.add(e)
 		cases = append(cases, g.Case(fmt.Sprintf("directed:basic cfg=%d", cfgKind)))
 
+		// 4b. two registries on one host name, different ports: nothing is shared
+		g = newAuthCaseGen(NewRNG(1), o)
+		g.cfg(1, cfgKind)
+		g.cfg(3, 5-cfgKind%5)
+		a = mk(1, 0, pull, "")
+		a.reg[0] = regReply{status: 401, hdrs: []string{bearerHdr(realm1, "registry.example", pull), `Basic realm="r"`}}
+		allTok(a, grantTok("Tport5000", 3600))
+		g.add(a)
+		b = mk(3, 1, pull, "")
+		allTok(b, grantTok("Tport5001pre", 3600))
+		g.add(b)
+		c = mk(3, 2, pull, "")
+		c.reg[0] = regReply{status: 401, hdrs: []string{bearerHdr(realm0, "svc0", pull)}}
+		allTok(c, grantTok("Tport5001", 3600))
+		g.add(c)
+		d = mk(1, 3, pull, "")
+		g.add(d)
+		cases = append(cases, g.Case(fmt.Sprintf("directed:sameport cfg=%d", cfgKind)))
+
 		// 5. failures of the token server
 		for _, bad := range []tokReply{{kind: 'm'}, {kind: 'f'}, {kind: 's', status: 500}, {kind: 's', status: 403}, {kind: 'j', refresh: "Nonly-RT"}, {kind: 'j'}} {
 			g = newAuthCaseGen(NewRNG(1), o)
@@ -646,6 +666,27 @@ func authDirected(o authGenOpts) []Case {
 			g.add(b)
 			cases = append(cases, g.Case(fmt.Sprintf("directed:norealm cfg=%d", cfgKind)))
 		}
+	}
+	// 7. real time: a 1 s token acquired after a long-lived one, used 1.3 s later
+	for _, cfgKind := range []int{0, 2} {
+		g := newAuthCaseGen(NewRNG(1), o)
+		g.cfg(0, cfgKind)
+		a := mk(0, 0, pull, "")
+		a.reg[0] = regReply{status: 401, hdrs: []string{bearerHdr(realm0, "svc0", pull)}}
+		allTok(a, grantTok("Tlong", 3600))
+		g.add(a)
+		b := mk(0, 1, push, "")
+		b.reg[0] = regReply{status: 401, hdrs: []string{bearerHdr(realm0, "svc0", push)}}
+		allTok(b, grantTok("Tshort", 1))
+		g.add(b)
+		g.lines = append(g.lines, "auth sleep 1300")
+		c := mk(0, 1400, push, "")
+		c.reg[0] = regReply{status: 401, hdrs: []string{bearerHdr(realm0, "svc0", push)}}
+		allTok(c, grantTok("Tagain", 3600))
+		g.add(c)
+		d := mk(0, 1401, pull, "")
+		g.add(d)
+		cases = append(cases, g.Case(fmt.Sprintf("directed:expiry-order cfg=%d", cfgKind)))
 	}
 	return cases
 }
@@ -683,12 +724,19 @@ func (e *cauth) Gen(rng *RNG, tier string) []Case {
 		if e.prop == "C11" && nh < 2 {
 			nh = 2
 		}
-		for h := 0; h < nh; h++ {
+		hs := rng.Perm(len(authHosts))[:nh]
+		if rng.Chance(1, 4) && nh >= 2 { // the two registries that share a host name
+			hs[0], hs[1] = 1, 3
+			if nh == 3 {
+				hs[2] = 2 * rng.Intn(2)
+			}
+		}
+		for _, h := range hs {
 			g.cfg(h, rng.Intn(9))
 		}
 		n := 2 + rng.Intn(6)
 		for k := 0; k < n; k++ {
-			g.add(g.req(rng.Intn(nh)))
+			g.add(g.req(hs[rng.Intn(nh)]))
 		}
 		cases = append(cases, g.Case("seq"))
 	}
@@ -718,7 +766,8 @@ func (e *cauth) Gen(rng *RNG, tier string) []Case {
 		for i := 0; i < 300; i++ {
 			g := newAuthCaseGen(rng, o)
 			nh := 2 + rng.Intn(2)
-			for h := 0; h < nh; h++ {
+			hs := rng.Perm(len(authHosts))[:nh]
+			for _, h := range hs {
 				g.cfg(h, rng.Intn(9))
 			}
 			n := 4 + rng.Intn(5)
@@ -726,7 +775,7 @@ func (e *cauth) Gen(rng *RNG, tier string) []Case {
 			g.verb = "breq"
 			g.step = 0
 			for k := 0; k < n; k++ {
-				g.add(g.req(rng.Intn(nh)))
+				g.add(g.req(hs[rng.Intn(nh)]))
 			}
 			cases = append(cases, g.Case("batch"))
 		}
